@@ -571,6 +571,18 @@ func WithAfterPublish(hook PublishHook) Option {
 // WithBeforePublishContext sets a context-aware hook that's called before publishing events
 func WithBeforePublishContext(hook PublishHookContext) Option {
 	return func(bus *EventBus) {
+		if bus.store != nil {
+			// WithStore was applied earlier and installed its persistence hook
+			// in this slot: keep persisting after the user hook instead of
+			// silently replacing it.
+			bus.beforePublishCtx = func(ctx context.Context, eventType reflect.Type, event any) {
+				if hook != nil {
+					hook(ctx, eventType, event)
+				}
+				bus.persistEvent(ctx, eventType, event)
+			}
+			return
+		}
 		bus.beforePublishCtx = hook
 	}
 }
